@@ -83,7 +83,7 @@ Proof. intros H. cbn [interpret3]. unf. apply IZR1_nz. exact H. Qed.
 End Inst.
 (* nsatz, closing the "c <> 0" goal it leaves when its certificate needs an
    integer multiplier c *)
-Ltac knsatz := nsatz; try (apply nsatz_const_nz; discriminate).
+Ltac knsatz := solve [ nsatz; try (apply nsatz_const_nz; discriminate) ].
 
 (* --- helper tactics ------------------------------------------------------ *)
 (* [nz]: discharge the non-vanishing side conditions produced by [field] from
@@ -109,11 +109,20 @@ Ltac nz_atom :=
 (* general case (Rabinowitsch trick): replace every hypothesis a <> 0 by a
    witness b with a * b = 1, then 1 = 0 follows from p = 0 by a Groebner
    certificate whenever p is a product of the a's up to a unit *)
-Ltac nz_rabin :=
-  let E := fresh "E" in intro E;
+Ltac wit_all :=
   repeat match goal with H : ?a <> _ |- _ =>
      let b := fresh "b" in let Hb := fresh "Hb" in
-     destruct (inv_wit _ a H) as [b Hb]; clear H end;
+     destruct (inv_wit _ a H) as [b Hb]; clear H end.
+(* try the witness of one non-vanishing hypothesis at a time (backtracking) *)
+Ltac wit_one_then tac :=
+  match goal with H : ?a <> _ |- _ =>
+     let b := fresh "b" in let Hb := fresh "Hb" in
+     destruct (inv_wit _ a H) as [b Hb]; tac end.
+Ltac subst_zero_vars :=
+  repeat match goal with H : ?x = f0 |- _ => is_var x; subst x end.
+Ltac nz_rabin :=
+  let E := fresh "E" in intro E;
+  wit_all;
   exfalso;
   match type of E with @eq (car ?K) _ _ => apply (one_nz K) end; knsatz.
 Ltac nz1 :=
